@@ -3,21 +3,87 @@
 #include <stddef.h>
 #include <string.h>
 #include <stdlib.h>
-int verif_exc_pending; void* verif_exc_obj; void* verif_exc_type;
-int verif_exc_matches(void* tinfo) { return tinfo == 0 || tinfo == verif_exc_type; }
-long verif_typeid_for(void* tinfo) { return tinfo == 0 ? 1 : (long)(((uintptr_t)tinfo) & 0x7fffffff) | 2; }
-unsigned __int128 verif_bswap(unsigned __int128 x, int n) { unsigned __int128 r = 0; for (int i = 0; i < n / 8; i++) { r = (r << 8) | (x & 0xff); x >>= 8; } return r; }
-unsigned __int128 verif_ctpop(unsigned __int128 x, int n) { unsigned c = 0; for (int i = 0; i < n; i++) c += (x >> i) & 1; return c; }
-unsigned __int128 verif_ctlz(unsigned __int128 x, int n) { unsigned c = 0; for (int i = n - 1; i >= 0; i--) { if ((x >> i) & 1) break; c++; } return c; }
-unsigned __int128 verif_cttz(unsigned __int128 x, int n) { unsigned c = 0; for (int i = 0; i < n; i++) { if ((x >> i) & 1) break; c++; } return c; }
-unsigned __int128 verif_fshl(unsigned __int128 a, unsigned __int128 b, unsigned c, int n) { c %= n; unsigned __int128 m = n == 128 ? ~(unsigned __int128)0 : (((unsigned __int128)1 << n) - 1); if (!c) return a & m; return ((a << c) | (b >> (n - c))) & m; }
-unsigned __int128 verif_fshr(unsigned __int128 a, unsigned __int128 b, unsigned c, int n) { c %= n; unsigned __int128 m = n == 128 ? ~(unsigned __int128)0 : (((unsigned __int128)1 << n) - 1); if (!c) return b & m; return ((a << (n - c)) | (b >> c)) & m; }
-
 #ifdef __CPROVER__
 #define MODEL_ASSUME(c) __CPROVER_assume(c)
 #else
 #define MODEL_ASSUME(c) do { if (!(c)) abort(); } while (0)
 #endif
+int verif_exc_pending; void* verif_exc_obj; void* verif_exc_type;
+/* C++ exceptions: __cxa_throw records the thrown object and its std::type_info; a landing pad's catch clause matches when
+   the thrown type is the clause type or derives from it through single inheritance (__si_class_type_info chain: field 2 of
+   the type_info object is the base class type_info). The std exception hierarchy of libstdc++ is reproduced below. */
+struct verif_ti { void* vt; const char* name; struct verif_ti* base; };
+void* _ZTVN10__cxxabiv120__si_class_type_infoE[8];
+void* _ZTVN10__cxxabiv117__class_type_infoE[8];
+void* _ZTVN10__cxxabiv121__vmi_class_type_infoE[8];
+#define VERIF_SI (&_ZTVN10__cxxabiv120__si_class_type_infoE[2])
+#define VERIF_CI (&_ZTVN10__cxxabiv117__class_type_infoE[2])
+struct verif_ti _ZTISt9exception = {VERIF_CI, "St9exception", 0};
+struct verif_ti _ZTISt9bad_alloc = {VERIF_SI, "St9bad_alloc", &_ZTISt9exception};
+struct verif_ti _ZTISt20bad_array_new_length = {VERIF_SI, "St20bad_array_new_length", &_ZTISt9bad_alloc};
+struct verif_ti _ZTISt11logic_error = {VERIF_SI, "St11logic_error", &_ZTISt9exception};
+struct verif_ti _ZTISt13runtime_error = {VERIF_SI, "St13runtime_error", &_ZTISt9exception};
+struct verif_ti _ZTISt12out_of_range = {VERIF_SI, "St12out_of_range", &_ZTISt11logic_error};
+struct verif_ti _ZTISt12length_error = {VERIF_SI, "St12length_error", &_ZTISt11logic_error};
+struct verif_ti _ZTISt16invalid_argument = {VERIF_SI, "St16invalid_argument", &_ZTISt11logic_error};
+struct verif_ti _ZTISt12domain_error = {VERIF_SI, "St12domain_error", &_ZTISt11logic_error};
+struct verif_ti _ZTISt14overflow_error = {VERIF_SI, "St14overflow_error", &_ZTISt13runtime_error};
+struct verif_ti _ZTISt11range_error = {VERIF_SI, "St11range_error", &_ZTISt13runtime_error};
+struct verif_ti _ZTISt12system_error = {VERIF_SI, "St12system_error", &_ZTISt13runtime_error};
+struct verif_ti _ZTINSt8ios_base7failureB5cxx11E = {VERIF_SI, "NSt8ios_base7failureB5cxx11E", &_ZTISt12system_error};
+struct verif_ti _ZTISt8bad_cast = {VERIF_SI, "St8bad_cast", &_ZTISt9exception};
+struct verif_ti _ZTISt17bad_function_call = {VERIF_SI, "St17bad_function_call", &_ZTISt9exception};
+struct verif_ti _ZTISt19bad_optional_access = {VERIF_SI, "St19bad_optional_access", &_ZTISt9exception};
+struct verif_ti _ZTISt18bad_variant_access = {VERIF_SI, "St18bad_variant_access", &_ZTISt9exception};
+int verif_exc_matches(void* tinfo) {
+  if (tinfo == 0) return 1;
+  struct verif_ti* t = (struct verif_ti*)verif_exc_type;
+  for (int k = 0; k < 6 && t != 0; k++) {
+    if ((void*)t == tinfo) return 1;
+    if (t->vt != (void*)VERIF_SI) break;
+    t = t->base;
+  }
+  return 0;
+}
+uint8_t* __cxa_allocate_exception(uint64_t n) { uint8_t* p = malloc(n <= 64 ? 64 : 256); MODEL_ASSUME(p != 0); return p; }
+void __cxa_free_exception(uint8_t* p) {}
+void __cxa_throw(uint8_t* obj, uint8_t* tinfo, uint8_t* dtor) { verif_exc_pending = 1; verif_exc_obj = obj; verif_exc_type = tinfo; }
+/* std::exception family out-of-line members: the message is not modelled (what() returns an empty string) */
+void _ZNSt9exceptionD2Ev(uint8_t* t) {}
+void _ZNSt13runtime_errorC1ERKNSt7__cxx1112basic_stringIcSt11char_traitsIcESaIcEEE(uint8_t* t, uint8_t* s) {}
+void _ZNSt13runtime_errorC2ERKNSt7__cxx1112basic_stringIcSt11char_traitsIcESaIcEEE(uint8_t* t, uint8_t* s) {}
+void _ZNSt13runtime_errorC1EPKc(uint8_t* t, uint8_t* s) {}
+void _ZNSt13runtime_errorC2EPKc(uint8_t* t, uint8_t* s) {}
+void _ZNSt13runtime_errorD1Ev(uint8_t* t) {}
+void _ZNSt13runtime_errorD2Ev(uint8_t* t) {}
+void _ZNSt11logic_errorC1ERKNSt7__cxx1112basic_stringIcSt11char_traitsIcESaIcEEE(uint8_t* t, uint8_t* s) {}
+void _ZNSt11logic_errorC2ERKNSt7__cxx1112basic_stringIcSt11char_traitsIcESaIcEEE(uint8_t* t, uint8_t* s) {}
+void _ZNSt11logic_errorC1EPKc(uint8_t* t, uint8_t* s) {}
+void _ZNSt11logic_errorC2EPKc(uint8_t* t, uint8_t* s) {}
+void _ZNSt11logic_errorD1Ev(uint8_t* t) {}
+void _ZNSt11logic_errorD2Ev(uint8_t* t) {}
+void _ZNSt12out_of_rangeD1Ev(uint8_t* t) {}
+void _ZNSt12length_errorD1Ev(uint8_t* t) {}
+void _ZNSt16invalid_argumentD1Ev(uint8_t* t) {}
+void _ZNSt14overflow_errorD1Ev(uint8_t* t) {}
+/* std::ios_base::failure (thrown by the stream classes in streams.h / serialize.h): message and error_code not modelled */
+void _ZNSt8ios_base7failureB5cxx11C1EPKcRKSt10error_code(uint8_t* t, uint8_t* s, uint8_t* ec) {}
+void _ZNSt8ios_base7failureB5cxx11C1ERKNSt7__cxx1112basic_stringIcSt11char_traitsIcESaIcEEERKSt10error_code(uint8_t* t, uint8_t* s, uint8_t* ec) {}
+void _ZNSt8ios_base7failureB5cxx11D1Ev(uint8_t* t) {}
+static uint8_t verif_iostream_category_obj[16];
+uint8_t* _ZSt17iostream_categoryv(void) { return verif_iostream_category_obj; }
+static const uint8_t verif_empty_what[1] = {0};
+uint8_t* _ZNKSt13runtime_error4whatEv(uint8_t* t) { return (uint8_t*)verif_empty_what; }
+uint8_t* _ZNKSt11logic_error4whatEv(uint8_t* t) { return (uint8_t*)verif_empty_what; }
+uint8_t* _ZNKSt9exception4whatEv(uint8_t* t) { return (uint8_t*)verif_empty_what; }
+long verif_typeid_for(void* tinfo) { return tinfo == 0 ? 1 : (long)(((uintptr_t)tinfo) & 0x7fffffff) | 2; }
+unsigned __int128 verif_bswap(unsigned __int128 x, int n) { unsigned __int128 r = 0; for (int i = 0; i < n / 8; i++) { r = (r << 8) | (x & 0xff); x >>= 8; } return r; }
+unsigned __int128 verif_ctpop(unsigned __int128 x, int n) { unsigned c = 0; for (int i = 0; i < n; i++) c += (x >> i) & 1; return c; }
+unsigned __int128 verif_ctlz(unsigned __int128 x, int n) { /* loop-free binary search */ unsigned __int128 y = x << (128 - n); unsigned c = 0; if (!y) return n; if (!(y >> 64)) { c += 64; y <<= 64; } if (!(y >> 96)) { c += 32; y <<= 32; } if (!(y >> 112)) { c += 16; y <<= 16; } if (!(y >> 120)) { c += 8; y <<= 8; } if (!(y >> 124)) { c += 4; y <<= 4; } if (!(y >> 126)) { c += 2; y <<= 2; } if (!(y >> 127)) { c += 1; } return c; }
+unsigned __int128 verif_cttz(unsigned __int128 x, int n) { unsigned c = 0; for (int i = 0; i < n; i++) { if ((x >> i) & 1) break; c++; } return c; }
+unsigned __int128 verif_fshl(unsigned __int128 a, unsigned __int128 b, unsigned c, int n) { c %= n; unsigned __int128 m = n == 128 ? ~(unsigned __int128)0 : (((unsigned __int128)1 << n) - 1); if (!c) return a & m; return ((a << c) | (b >> (n - c))) & m; }
+unsigned __int128 verif_fshr(unsigned __int128 a, unsigned __int128 b, unsigned c, int n) { c %= n; unsigned __int128 m = n == 128 ? ~(unsigned __int128)0 : (((unsigned __int128)1 << n) - 1); if (!c) return b & m; return ((a << (n - c)) | (b >> c)) & m; }
+
 /* Untyped allocations are rounded up to size classes so that an allocation whose size is symbolic at the call site (e.g. a
    std::string copy after a path merge) becomes a case split over constant-size objects instead of a symbolic-size array.
    Over-allocation is unobservable for the code under test (no out-of-bounds/leak checks are claimed). */
@@ -31,12 +97,18 @@ uint8_t* _Znam(uint64_t n) { return _Znwm(n); }
 void _ZdlPv(uint8_t* p) { }
 void _ZdlPvm(uint8_t* p, uint64_t n) { }
 void _ZdaPv(uint8_t* p) { }
-static int dummy_exc_type;
-static void verif_throw_generic(void) { verif_exc_pending = 1; verif_exc_obj = 0; verif_exc_type = &dummy_exc_type; }
-void _ZSt17__throw_bad_allocv(void) { verif_throw_generic(); }
-void _ZSt19__throw_logic_errorPKc(uint8_t* m) { verif_throw_generic(); }
-void _ZSt20__throw_length_errorPKc(uint8_t* m) { verif_throw_generic(); }
-void _ZSt28__throw_bad_array_new_lengthv(void) { verif_throw_generic(); }
+static void verif_throw_std(struct verif_ti* t) { verif_exc_pending = 1; verif_exc_obj = malloc(64); verif_exc_type = t; }
+void _ZSt17__throw_bad_allocv(void) { verif_throw_std(&_ZTISt9bad_alloc); }
+void _ZSt19__throw_logic_errorPKc(uint8_t* m) { verif_throw_std(&_ZTISt11logic_error); }
+void _ZSt20__throw_length_errorPKc(uint8_t* m) { verif_throw_std(&_ZTISt12length_error); }
+void _ZSt28__throw_bad_array_new_lengthv(void) { verif_throw_std(&_ZTISt20bad_array_new_length); }
+void _ZSt20__throw_out_of_rangePKc(uint8_t* m) { verif_throw_std(&_ZTISt12out_of_range); }
+void _ZSt24__throw_out_of_range_fmtPKcz(uint8_t* m, ...) { verif_throw_std(&_ZTISt12out_of_range); }
+void _ZSt24__throw_invalid_argumentPKc(uint8_t* m) { verif_throw_std(&_ZTISt16invalid_argument); }
+void _ZSt21__throw_runtime_errorPKc(uint8_t* m) { verif_throw_std(&_ZTISt13runtime_error); }
+void _ZSt20__throw_overflow_errorPKc(uint8_t* m) { verif_throw_std(&_ZTISt14overflow_error); }
+void _ZSt25__throw_bad_function_callv(void) { verif_throw_std(&_ZTISt17bad_function_call); }
+void _ZSt27__throw_bad_optional_accessv(void) { verif_throw_std(&_ZTISt19bad_optional_access); }
 void _ZSt9terminatev(void) {
 #ifdef __CPROVER__
   __CPROVER_assert(0, "std::terminate");
